@@ -3,7 +3,7 @@ import os, time, subprocess, concurrent.futures as cf
 from vcommon import *
 
 PID = "C15"
-PROP_V = ["Props/Properties_C15.v", "Props/Properties_C05sw.v"]
+PROP_V = ["Props/Properties_C15.v", "Props/Properties_C05sw.v", "Props/Properties_C05sx.v"]
 GEN_MODULES = ["Consts", "Sites", "Time"]
 FLOW_FILES = ['nsync_semaphore_futex.c', 'sem_wait.c', 'wait.c', 'cv.c', 'mu_wait.c']
 TRUSTED_BASE = ["the kernel futex contract is modelled in SemModel (timespec validation as Linux timespec64_valid); the real-kernel "
@@ -12,7 +12,8 @@ PARTIAL = ["C15_expired_prompt/C15_no_crash/C15_no_early_timeout are proved for 
            "plumbing above it: nsync_sem_wait_with_cancel_ is modelled step by step (Model/SemWaitModel.v, Properties_C05sw): C05sw_deadline_enabled / "
            "C05sw_plain_deadline_enabled (for ANY deadline value, before the epoch included, the time-out step is enabled as soon as the clock has reached it), "
            "C15sw_no_deadline (with no deadline and no note the wait never times out and returns only 0), C05sw_results (no other result exists); that an expired "
-           "deadline returns within a bounded number of own steps (C05sw_expired_prompt_stmt) is a Definition with computed instances only; wait_n's short-circuit "
+           "deadline (or an expired cancel note) makes the wait return non-zero within 15 + 2 * (records on the note) own steps, never blocked, is "
+           "C05sx_expired_prompt / _quiet / _composed (Properties_C05sx); wait_n's short-circuit "
            "and the cv / mu / note / counter wait loops are covered by the real-library grid (now also with never-notified cancel notes and the wait_n heap path), "
            "not by a theorem"]
 REPLAY_HINT = "_work/c15/drv_<build> <entry> <kind> <sec> <nsec>   (harness/seq/deadline_driver.c linked with the library built from /repo)"
